@@ -72,3 +72,23 @@ Theorem C03_interval_facets_some_code_aligns_the_points :
   exists code, (code < 2)%nat /\ forall x, (F2 (fun i => X (nth i [a; b] 0%nat)) (apply_interval code x) == F2 X x)%Q.
 Proof. exact interval_points_coincide_for_some_code. Qed.
 Print Assumptions C03_interval_facets_some_code_aligns_the_points.
+
+(* ---- which tables keep their permutation axis (Tab.v; TabGen.v regenerated from elementtables.py) ----
+   is_permuted_table compares the whole sub-table of every permutation slot with slot 0 (all entities, all points,
+   all dofs): a table whose permutation axis is dropped is, within the tolerance, the same for every slot. *)
+From Coq Require Import String Qabs.
+From FFCX Require Import Tab.
+From FFCXGen Require Import TabGen.
+
+Theorem C03_permutation_axis_test_compares_whole_slots :
+  gen_is_permuted_negated = (["0"; ":"; ":"; ":"], ["i"; ":"; ":"; ":"], 0%nat)%string.
+Proof. reflexivity. Qed.
+Print Assumptions C03_permutation_axis_test_compares_whole_slots.
+
+Theorem C03_dropped_permutation_axis_means_equal_slots :
+  forall rtol atol, (0 <= rtol)%Q -> (0 <= atol)%Q ->
+  forall T, is_permuted rtol atol T = false ->
+  forall p e q d, in_range T p e q d ->
+    (Qabs (val T 0 e q d - val T p e q d) <= atol + rtol * Qabs (val T p e q d))%Q.
+Proof. exact permuted_spec. Qed.
+Print Assumptions C03_dropped_permutation_axis_means_equal_slots.
